@@ -109,13 +109,14 @@ pub fn gen_rect_rel(src: &mut Src, b: &R, scale: i32) -> [i32; 4] {
 
 /// Small arbitrary device boxes, including empty and non-origin ones.
 pub fn gen_small_box(src: &mut Src) -> [i32; 4] {
-    match src.draw(8) {
+    match src.draw(16) {
         0 => [0, 0, 0, 0],
         1 => [src.sym(4), src.sym(4), src.draw(8) as i32, 0],
         2 => [src.sym(4), src.sym(4), 0, src.draw(8) as i32],
         3 => [src.sym(8), src.sym(8), 1, 1],
-        4 => [0, 0, 1 + src.draw(40) as i32, 1 + src.draw(40) as i32],
-        _ => [src.sym(8), src.sym(8), src.draw(41) as i32, src.draw(41) as i32],
+        4 | 5 | 6 => [0, 0, 1 + src.draw(40) as i32, 1 + src.draw(40) as i32],
+        7 => [src.sym(8), src.sym(8), src.draw(41) as i32, src.draw(41) as i32],
+        _ => [src.sym(8), src.sym(8), 1 + src.draw(40) as i32, 1 + src.draw(40) as i32],
     }
 }
 
